@@ -211,6 +211,7 @@ func run(c *driver.Ctx) {
 			}
 		}
 	}
+	runWrappers(c)
 	n := int64(c.N(320, 14000)) // programs per shard
 	for i := int64(0); i < n; i++ {
 		if !c.Want(i) {
@@ -305,7 +306,7 @@ func main() {
 			"operands of binary operations are distinct, non-overlapping values (neither contains the other)",
 			"pcommon.Map is compared as an unordered key/value set (its public API never creates duplicate keys); derived counters (LogRecordCount …) are called but not compared",
 			"mutators are recognised by name (Set*|Put*|Append*|Remove*|Ensure*|Move*|Sort|FromRaw|Clear, CopyTo for its destination); a method classified as reader that changed or panicked on read-only data would be reported",
-			"values held across a mutation (wrappers obtained before an append) are not exercised: every step re-resolves its operands from the roots",
+			"in the reflective programs values held across a mutation (wrappers obtained before an append) are not exercised: every step re-resolves its operands from the roots; handles held across a MoveAndAppendTo between two payloads are exercised by the separate family of wrappers.go (resource / scope / item level of the four signals), as are the OTLP ExportRequest wrappers over a read-only payload",
 		},
 		TrustedBase:   []string{"package reflect; the generic reference tree of cmd/c07/model.go; discriminator codes of one-of alternatives are read once from fresh values"},
 		Shards:        func(string) int { return 16 },
